@@ -37,7 +37,7 @@ import (
 	"github.com/dolthub/dolt/go/zzverif/vsql"
 )
 
-const c35FaultRule = "per case: a database with a generated history (table t with 3-5 rows, optionally 200 bulk rows; 2-4 further commits on main and b1, each pushed to a file remote so the remote holds several table files). Transfer 1 (push path, in process): a destination directory store that already holds an older commit of main (so it shares part of the chunks; drawn: the direct parent, a deeper ancestor, or — with a force push — a commit of b1 that is not an ancestor) receives actions.Push of the newest commit of main, with the destination's *nbs.GenerationalNBS wrapped so that call #k of WriteTableFile (failing before the write, and in a second variant after the file was written), AddTableFilesToManifest or Commit returns an error — once, or (sticky variant, clone path only, because only that path retries) for that call and every later call of the same kind — for every k from 1 to the number of calls of that kind counted in the clean run. Transfer 2 (clone path): DoltDB.Clone from the remote directory into an empty wrapped directory store, same enumeration. Oracle: a sticky failure makes the transfer return an error; a transfer that returns an error leaves the destination (reopened without cache) with exactly the datasets it had before; a transfer that absorbs a one-time failure by retrying (the clone path retries table files) and reports success must end in the clean run's state; and the closure walk (types.WalkAddrsFromNomsValue) from every dataset head finds every address; the transfer retried without faults on the same directory succeeds and the destination's datasets equal those of the clean run (push: branch main at the pushed commit; clone: all of the source's datasets) and its closure walk passes. The enumeration over k is complete for each generated transfer (exhaustive within a case; cases are sampled). Non-trivial: a fault point strictly between the first table file write and the final root update, of a transfer whose destination already held part of the data or that moves at least two table files; distinct by history shape, transfer kind and fault point."
+const c35FaultRule = "per case: a database with a generated history (table t with 3-5 rows, optionally 200 bulk rows; 2-4 further commits on main and b1, each pushed to a file remote so the remote holds several table files). Transfer 1 (push path, in process): a destination directory store that already holds an older commit of main (so it shares part of the chunks; drawn: the direct parent, a deeper ancestor, or — with a force push — a commit of b1 that is not an ancestor) receives actions.Push of the newest commit of main, with the destination's *nbs.GenerationalNBS wrapped so that call #k of WriteTableFile (failing before the write, and — push path — in a second variant after the file was written), AddTableFilesToManifest or Commit returns an error — once, or (sticky variant, clone path only, because only that path retries) for that call and every later call of the same kind — for every k from 1 to the number of calls of that kind counted in the clean run. Transfer 2 (clone path): DoltDB.Clone from the remote directory into an empty wrapped directory store, same enumeration. Oracle: a sticky failure makes the transfer return an error; a transfer that returns an error leaves the destination (reopened without cache) with exactly the datasets it had before; a transfer that absorbs a one-time failure by retrying (the clone path retries table files) and reports success must end in the clean run's state; and the closure walk (types.WalkAddrsFromNomsValue) from every dataset head finds every address; the transfer retried without faults on the same directory succeeds and the destination's datasets equal those of the clean run (push: branch main at the pushed commit; clone: all of the source's datasets) and its closure walk passes. The enumeration over k is complete for each generated transfer (exhaustive within a case; cases are sampled). Non-trivial: a fault point strictly between the first table file write and the final root update, of a transfer whose destination already held part of the data or that moves at least two table files; distinct by history shape, transfer kind and fault point."
 
 var c35FaultAssumptions = []string{
 	"faults are errors returned by the destination's table-file store calls (connection-loss model); torn writes inside one call and crashes of the pushing process are not modelled here (C03/C05 cover the store's own crash atomicity)",
@@ -235,6 +235,9 @@ func (c *c35FaultCase) enumerate(tr c35Transfer, dir0 string, sharesData bool, r
 		if v.sticky && tr.name != "clone" {
 			continue // only the clone path retries, so only there a lasting failure differs from a single one
 		}
+		if v.after && tr.name == "clone" {
+			continue // the clone path absorbs a one-time failure either way; covered by the plain variant
+		}
 		for k := 1; k <= counts[v.op]; k++ {
 			points++
 			label := fmt.Sprintf("%s: fault at %s #%d (after=%v sticky=%v)", tr.name, v.op, k, v.after, v.sticky)
@@ -309,7 +312,7 @@ func TestVerif_C35_faults(t *testing.T) {
 	defer admin.Close()
 	admin.MustExec(t, "CREATE DATABASE home")
 	admin.MustExec(t, "USE home")
-	vh.Check(t, "enumerate", 4, 6, func(rt *rapid.T) {
+	vh.Check(t, "enumerate", 3, 5, func(rt *rapid.T) {
 		c35FaultRun(rt, srv, admin, dir, rec)
 	})
 }
